@@ -758,16 +758,19 @@ def run_spec(ctx, spec, harvested, seen_cls, fail_cls, excluded_log):
             ctx.disagree(f"{nm}: the model driver rejects the request", {"value": _short(toks), "answer": a[:1]})
             continue
         if w[0] == "ok":
-            if a[0] != "ok" or a[1] != hx(w[1]):
+            # a broken correspondence never hides the property: the reader case and the Python-only oracle below run on the
+            # bytes the real writer produced whether or not the model agrees with them
+            bytes_ok = a[0] == "ok" and a[1] == hx(w[1])
+            if not bytes_ok:
                 ctx.disagree(f"{nm}: write() bytes != model enc", {"value": _short(toks), "version": v, "padding": pad,
                                                                   "model": a[:2] if a[0] != "ok" else _short(a[1], 200), "py": hx(w[1])[:200]})
-                continue
-            if int(a[2]) != w[2]:
-                ctx.disagree(f"{nm}: count returned by write != model count", {"value": _short(toks), "py": w[2], "model": a[2]})
-            if after != toks:
-                ctx.disagree(f"{nm}: write() changed the object (the model says it does not)", {"value": _short(toks), "after": _short(after)})
-            iswf = a[3] == "1"
+            else:
+                if int(a[2]) != w[2]:
+                    ctx.disagree(f"{nm}: count returned by write != model count", {"value": _short(toks), "py": w[2], "model": a[2]})
+                if after != toks:
+                    ctx.disagree(f"{nm}: write() changed the object (the model says it does not)", {"value": _short(toks), "after": _short(after)})
             why = spec.excluded(x, pad, rpad)
+            iswf = (a[3] == "1") if bytes_ok else (why is None)
             if iswf != (why is None):
                 ctx.disagree(f"{nm}: model WF disagrees with the harness's reading of the clauses",
                              {"value": _short(toks), "model_wf": iswf, "harness": why})
@@ -789,8 +792,8 @@ def run_spec(ctx, spec, harvested, seen_cls, fail_cls, excluded_log):
                 rt = spec.tokens(r[1])
             except (NotRep, skel.NotSkeleton) as e:
                 ctx.disagree(f"{nm}: re-read value is not representable in the model", {"value": _short(toks), "why": str(e)})
-                continue
-            if a[0] != "ok" or a[1] != rt or int(a[2]) != r[2]:
+                rt = None                      # the Python-only oracle below still runs (it counts this as "re-read differs")
+            if rt is not None and (a[0] != "ok" or a[1] != rt or int(a[2]) != r[2]):
                 ctx.disagree(f"{nm}: read() structure / cursor != model dec",
                              {"value": _short(toks), "py": _short(rt), "model": _short(a[1]) if len(a) > 1 else a,
                               "py_pos": r[2], "model_pos": a[2] if len(a) > 2 else None, "version": v, "padding": pad})
@@ -1261,6 +1264,13 @@ class MetadataSpec(Spec):
         out.append(("boundary", K([MS(b"8BIM", k, bool(i % 2), blk()) for i, k in enumerate(known)])))
         out.append(("boundary", K([MS(b"8ELE", b"mdyn", True, 0), MS(b"8BIM", b"sgrp", False, 2 ** 32 - 1), MS(b"8BIM", b"abcd", False, b""),
                                    MS(b"8BIM", b"wxyz", True, b"\x01\x02\x03")])))
+        # every kind of item at every position of the list (first, in the middle, last): what follows an item depends on how the
+        # item before it ended
+        base = [lambda: MS(b"8BIM", b"wxyz", True, b"\x01\x02\x03"), lambda: MS(b"8ELE", b"mdyn", True, 7),
+                lambda: MS(b"8BIM", known[0], False, blk(1)), lambda: MS(b"8BIM", b"abcd", False, b"\x09"),
+                lambda: MS(b"8BIM", b"pqrs", False, b"\x01\x02\x03\x04\x05\x06")]
+        for i in range(len(base)):
+            out.append(("boundary", K([f() for f in base[i:] + base[:i]])))
         for _ in range(3 if quick else 80):
             items = []
             for _ in range(rng.choice([1, 2, 4])):
